@@ -108,25 +108,29 @@ def ob_gate_tp(sys):
     def run(I):
         from quara.objects import gate as G
         c = qenv.csys(sys)
-        B = qenv.dense_basis(c) if sys in ("Q1u", "Q1h") else basis_of(sys)
+        B = qenv.dense_basis(c) if sys in ("Q1u", "Q1h", "Q1x") else basis_of(sys)
         hs = mat_of(I, "h", n, n)
         g = mk_gate(c, hs)
         atol = I["atol"]
         ver = g.is_tp(atol)
         ver2 = G.is_tp(c, hs, atol)
         ver3 = g.is_eq_constraint_satisfied(atol)
-        if c.is_orthonormal_hermitian_0thprop_identity:
-            devs = [hs[0, j] - (1.0 if j == 0 else 0.0) for j in range(n)]
-        else:
-            # Tr[A(B_b)] - Tr[B_b] with A(B_b) = sum_a hs_ab B_a
-            devs = []
-            for b in range(n):
-                t = 0
-                for a in range(n):
-                    ta = np.trace(B[a])
-                    if ta != 0:
-                        t = t + hs[a, b] * ta
-                devs.append(as_real(t - np.trace(B[b])))
+        # trace preservation from the definition, whatever shortcut the library takes: Tr[A(B_b)] - Tr[B_b] with A(B_b) = sum_a hs_ab B_a
+        # (the library's own basis classification is NOT consulted)
+        devs = []
+        for b in range(n):
+            t = 0
+            for a in range(n):
+                ta = np.trace(B[a])
+                if abs(ta) > 1e-12:
+                    t = t + hs[a, b] * ta
+            devs.append(as_real(t - np.trace(B[b])))
+        scale = max(abs(np.trace(B[a])) for a in range(n))
+        ident_first = bool(np.allclose(B[0], np.eye(d) / np.sqrt(d))) and all(np.allclose(b_, b_.conj().T) for b_ in B) and \
+            bool(np.allclose([[np.trace(x_.conj().T @ y_) for y_ in B] for x_ in B], np.eye(n)))
+        if ident_first:
+            # orthonormal identity-first basis: Tr B_0 = sqrt(d); the library tests the first HS row itself, i.e. the deviations divided by sqrt(d)
+            devs = [x / scale for x in devs]
         return two_sided("is_tp", ver, devs, atol) + [Holds("gate.is_tp == Gate.is_tp == is_eq_constraint_satisfied", iff(ver, ver2) & iff(ver, ver3))]
     return FnOb(reals("h", n * n, -BOX, BOX) + [ATOL], run, max_paths=100)
 
@@ -396,7 +400,7 @@ def obligations(tier):
     lin = tiers(tier, ["Q1", "T1"], ["Q1", "T1", "Q2", "QT"])
     out += specs("C01.state.eq", [{"sys": s, "default": dflt} for s in lin for dflt in (False, True)], ob_state_eq)
     out += specs("C01.povm.eq", [{"sys": s, "m": m} for s in tiers(tier, ["Q1", "T1"], ["Q1", "T1", "Q2"]) for m in tiers(tier, [2, 3], [2, 3, 4])], ob_povm_eq, 2)
-    out += specs("C01.gate.tp", [{"sys": s} for s in tiers(tier, ["Q1", "T1", "Q1u", "Q1h"], ["Q1", "T1", "Q2", "Q1u", "Q1h"])], ob_gate_tp, 2)
+    out += specs("C01.gate.tp", [{"sys": s} for s in tiers(tier, ["Q1", "T1", "Q1u", "Q1h", "Q1x"], ["Q1", "T1", "Q2", "Q1u", "Q1h", "Q1x"])], ob_gate_tp, 2)
     out += specs("C01.mprocess.sumtp", [{"sys": s, "m": m} for s in tiers(tier, ["Q1"], ["Q1", "T1"]) for m in tiers(tier, [2, 3], [2, 3, 4])], ob_mprocess_sumtp, 2)
     for s in tiers(tier, ["Q1", "T1"], ["Q1", "T1", "Q2", "QT"]):
         names = [nm for nm, _ in refs.unitary_library(DIMS[s])]
